@@ -641,6 +641,70 @@ def gen_alias_pair(rng, n_parsers):
     return ops
 
 
+# ---- twin documents: members of one family have the same elements and differ in a detail the parser's decision depends on
+# (an attribute value or its presence, the case of a name, a public identifier, one intervening element).  A memo or cache
+# on a long-lived object keyed by less than what the decision depends on answers the second member with the first one's
+# verdict.
+TWIN_FAMILIES = [
+    ["<math><annotation-xml encoding=text/html><p>x</p><b>y", "<math><annotation-xml encoding=MathML-Content><p>x</p><b>y",
+     "<math><annotation-xml><p>x</p><b>y", "<math><annotation-xml encoding=application/xhtml+xml><p>x</p>",
+     "<math><annotation-xml encoding='TEXT/HTML'><apply><ci>a", "<math><annotation-xml encoding=MathML-Content><apply><ci>a"],
+    ["<table><input type=hidden><tr>", "<table><input type=text><tr>", "<table><input><tr>", "<table><input TYPE=HIDDEN>x",
+     "<table><input type=' hidden'>x"],
+    ["<p><input type=hidden><frameset>", "<p><input type=text><frameset>", "<p><input><frameset>"],
+    ["<svg><font color=red>x</font>y", "<svg><font>x</font>y", "<svg><font size=1>x", "<svg><font face=a>x", "<math><font id=a>x",
+     "<svg><font COLOR=red>x"],
+    ["<svg><foreignObject><p>x", "<svg><desc><p>x", "<svg><title><p>x", "<svg><g><p>x", "<svg><foreignobject><b>x", "<svg><switch><p>x"],
+    ["<math><mi><p>x", "<math><mo><p>x", "<math><mtext><b>x", "<math><mrow><p>x", "<math><ms><mglyph>", "<math><mi><mglyph>",
+     "<math><mi><malignmark>", "<math><mrow><mglyph>"],
+    ["<!DOCTYPE html><p><table>", '<!DOCTYPE html PUBLIC "-//W3C//DTD HTML 4.01 Transitional//EN"><p><table>',
+     '<!DOCTYPE html PUBLIC "-//W3C//DTD HTML 4.01 Transitional//EN" "http://www.w3.org/TR/html4/loose.dtd"><p><table>',
+     '<!DOCTYPE html SYSTEM "http://www.ibm.com/data/dtd/v11/ibmxhtml1-transitional.dtd"><p><table>', "<p><table>",
+     '<!DOCTYPE html PUBLIC "-//W3C//DTD XHTML 1.0 Frameset//EN"><p><table>', "<!DOCTYPE htm><p><table>"],
+    ["<svg viewbox=1 attributename=a>", "<svg viewBox=1>", "<math definitionurl=x>", "<svg xlink:href=a xml:lang=b>", "<math xlink:href=a>",
+     "<svg><a xlink:href=a>", "<svg definitionurl=x>"],
+    ["<body a=1><body b=2>", "<body a=1><body a=2>", "<html a=1><html b=2>x", "<body><body a=1>"],
+    ["<meta charset=utf-8>x", "<meta http-equiv=content-type content='text/html; charset=koi8-r'>x", "<meta content=x>y"],
+    ["<a b=1 b=2>", "<a b=1 c=2>", "<a B=1 b=2>", "<a b=1 c=2 b=3>"],
+    ["<p><b><i>x</b>y", "<p><b><i>x</i>y", "<p><b><i>x</p>y", "<p><b><i>x</a>y"],
+    ["<select><input>", "<select><textarea>", "<select><keygen>", "<select><b>", "<select><select>"],
+    ["<h1><h2>x", "<h1><h1>x", "<h1><div><h2>", "<h1><b><h6>"],
+    ["<li><li>", "<li><div><li>", "<li><address><li>", "<li><p><li>", "<dd><dt>", "<dd><div><dt>", "<li><ul><li>"],
+    ["<template><td>x", "<template><tr>x", "<template><col>x", "<template><b>x", "<template><caption>x"],
+    ["<form><form>x", "<form><div><form>", "<template><form><form>", "<form></form><form>"],
+    ["<a href=x><a href=y>", "<a href=x><b><a>", "<nobr><nobr>", "<nobr><b><nobr>", "<a><table><a>"],
+    ["<pre>\nx", "<pre>x\n", "<textarea>\nx", "<listing>\nx", "<pre>\n\nx", "<pre><b>\nx"],
+    ["<a href='?a=b&amp=c'>", "<a href='?a=b&amp;c'>", "x&ampy", "<a href='?x&notit;'>", "x&notit;", "<a href='?x&not;y'>"],
+    ["<table><caption><td>", "<table><colgroup><td>", "<table><thead><td>", "<table><tr><td>", "<table><td>"],
+    ["<button><button>", "<button><p><button>", "<button><div></button>x"],
+    ["<ruby><rb><rt>", "<ruby><rt><rp>", "<ruby><rtc><rt>", "<ruby><b><rt>"],
+    ["<script type=text/plain><b></script>x", "<script><b></script>x", "<script src=a></script>x"],
+    ["<object><b><p></object>x", "<applet><b><p></applet>x", "<marquee><b><p></marquee>x", "<div><b><p></div>x"],
+    ["<frameset><frame><noframes>x", "<frameset><frameset>", "<frameset></frameset><noframes>x", "<frameset>x"],
+    ["<br></br>", "</br>", "<p></p></p>", "</p>"],
+    ["<image src=a>", "<img src=a>", "<svg><image src=a>", "<svg><img src=a>"],
+    ["<option><optgroup>", "<optgroup><option><optgroup>", "<select><option><optgroup>", "<option><p><option>"],
+]
+
+
+def gen_twin_pair(rng, n_parsers, cfgs):
+    fam = rng.choice(TWIN_FAMILIES)
+    a, b = rng.sample(fam, 2)
+    parsers = [i for i in range(len(cfgs)) if cfgs[i]["type"] == "parser"]
+    oi = rng.choice(parsers)
+    ops = []
+    frag = rng.random() < 0.2
+    for text in (a, b):
+        if frag:
+            ops.append({"op": "frag", "obj": oi, "doc": [text], "container": "div"})
+        else:
+            ops.append({"op": "parse", "obj": oi, "doc": [text]})
+    if rng.random() < 0.3:
+        # ... and the first one again: a memo filled by the second member
+        ops.append(dict(ops[0]))
+    return ops
+
+
 def gen_history(rng, stream):
     faulty = stream == "M2"
     n_parsers = rng.randint(1, 3)
@@ -698,6 +762,12 @@ def gen_history(rng, stream):
         k = rng.randint(0, 2)
         case["ops"] = ops[:pos] + pair[:1] + ops[pos:pos + k] + pair[1:] + ops[pos + k:]
         case["pristine"] = True       # always compared with the pristine interpreter
+    elif rng.random() < 0.17:
+        ops = case["ops"]
+        pos = rng.randint(0, len(ops))
+        pair = gen_twin_pair(rng, n_parsers, objs)
+        k = rng.randint(0, 1)
+        case["ops"] = ops[:pos] + pair[:1] + ops[pos:pos + k] + pair[1:] + ops[pos + k:]
     return case
 
 
